@@ -47,8 +47,9 @@ pub fn raw_cfg(max_medium: usize) -> BoxedStrategy<RawCfg> {
 pub enum Op {
     /// reset to a supported configuration (may switch the default codec's rate)
     Reset(RawCfg),
-    /// reset that must fail: 0 zero originals, 1 zero recovery, 2 both too large, 3 odd size, 4 zero size, 5 outside this family's envelope
-    ResetBad { variant: u8 },
+    /// reset that must fail: 0 zero originals, 1 zero recovery, 2 both too large, 3 odd size, 4 zero size,
+    /// 5 outside this family's envelope, 6 other counts (possibly the other rate) with odd size, 7 other counts with size 0
+    ResetBad { variant: u8, cfg: RawCfg },
     /// into_parts -> new(Some(work)) of another family / engine (not available for ReedSolomon*)
     Recycle { kind: Kind, eng: Eng, cfg: RawCfg },
     /// a complete round: all required adds, then encode/decode; result read (compared) or just dropped
@@ -84,7 +85,7 @@ pub struct OpWeights {
 pub fn op(max_medium: usize, w: &OpWeights) -> BoxedStrategy<Op> {
     prop_oneof![
         w.reset => raw_cfg(max_medium).prop_map(Op::Reset),
-        w.reset_bad => (0u8..6).prop_map(|variant| Op::ResetBad { variant }),
+        w.reset_bad => (0u8..8, raw_cfg(max_medium)).prop_map(|(variant, cfg)| Op::ResetBad { variant, cfg }),
         w.recycle => (gen::kind_rate(), gen::engine(), raw_cfg(max_medium)).prop_map(|(kind, eng, cfg)| Op::Recycle { kind, eng, cfg }),
         w.round => (any::<u64>(), gen::recv_spec(), prop::bool::weighted(0.85)).prop_map(|(seed, recv, read)| Op::Round { seed, recv, read }),
         w.partial => (any::<u64>(), gen::recv_spec(), any::<u16>()).prop_map(|(seed, recv, n_raw)| Op::Partial { seed, recv, n_raw }),
@@ -272,8 +273,10 @@ pub fn round_calls(dec: bool, c: Cfg, acc: &Accepted, seed: u64, recv: &RecvSpec
     calls
 }
 
-pub fn bad_reset(variant: u8, kind: Kind, cur: Cfg) -> Call {
+pub fn bad_reset(variant: u8, kind: Kind, cur: Cfg, other: Cfg) -> Call {
     match variant {
+        6 => Call::Reset(other.k, other.r, other.b + 1),
+        7 => Call::Reset(other.k, other.r, 0),
         0 => Call::Reset(0, cur.r, cur.b),
         1 => Call::Reset(cur.k, 0, cur.b),
         2 => Call::Reset(40000, 40000, cur.b),
@@ -333,7 +336,7 @@ pub fn expand(op: &Op, dec: bool, kind: Kind, cur: Cfg, acc: &Accepted) -> Vec<C
             let c = rc.orient(kind);
             vec![Call::Reset(c.k, c.r, c.b)]
         }
-        Op::ResetBad { variant } => vec![bad_reset(*variant, kind, cur)],
+        Op::ResetBad { variant, cfg } => vec![bad_reset(*variant, kind, cur, cfg.orient(kind))],
         Op::Recycle { .. } => Vec::new(),
         Op::Round { seed, recv, read } => round_calls(dec, cur, acc, *seed, recv, None, Some(*read)),
         Op::Partial { seed, recv, n_raw } => {
